@@ -120,6 +120,32 @@ Theorem strop_sound_any_config_partial : forall (cfg : strop_cfg), chk_sound py_
 Proof. exact (strop_sound_gen py_uni py_isspace). Qed.
 Print Assumptions strop_sound_any_config_partial.
 
+(* WHICH configurations (overrides) are covered: chk_base is this decidable predicate over the configuration record -- nothing
+   opaque: identifier-alphabet affixes and encoding prefix / whitespace char, an X+ rule whose complement is the identifier
+   alphabet, and a leading-digit guard.  strop_sound_any_config proves the property for EVERY configuration satisfying it. *)
+Theorem chk_base_spelled_out : forall cfg,
+  chk_base py_uni cfg = true <->
+  (   affix_ok (sc_enc_prefix cfg) /\ head_ok (sc_enc_prefix cfg)
+   /\ match sc_ws_char cfg with Some w => affix_ok w /\ head_ok w | None => True end
+   /\ affix_ok (sc_prefix cfg) /\ affix_ok (sc_suffix cfg) /\ (sc_prefix cfg = [] \/ head_ok (sc_prefix cfg))
+   /\ existsb good_clsplus (rules_of cfg ty_all) = true
+   /\ (existsb (good_boldigit py_uni) (rules_of cfg ty_all) = true \/ existsb (good_boldigit py_uni) (pats_of cfg ty_all) = true)).
+Proof. exact chk_base_spelled_out_thm. Qed.
+Print Assumptions chk_base_spelled_out.
+
+(* OUTSIDE that predicate the property is FALSE of the current code: the final re-verification's encoding dry-run uses
+   pattern.match (first character only), so an override with a stropping suffix outside the identifier alphabet returns an
+   INVALID token instead of raising.  Known finding F-STROP-ILLEGAL-AFFIX (witness reproduced on /repo f2f61d1; proposed fix
+   design_notes/C09_dryrun_fullmatch_fix.patch).  Partial: strop_sound_any_config. *)
+Theorem strop_illegal_affix_refuted :
+  strop py_uni py_isspace (cfg_c_suffix [45]) ty_any [105; 102] = Ok [95; 105; 102; 45]
+  /\ valid_ident [95; 105; 102; 45] = false
+  /\ strop py_uni py_isspace (cfg_c_suffix [47; 46; 46; 47; 120]) [112; 97; 116; 104] [105; 102] = Ok [95; 105; 102; 47; 46; 46; 47; 120]
+  /\ valid_ident [95; 105; 102; 47; 46; 46; 47; 120] = false
+  /\ chk_base py_uni (cfg_c_suffix [45]) = false.
+Proof. exact strop_illegal_affix_refuted_thm. Qed.
+Print Assumptions strop_illegal_affix_refuted.
+
 (* a tree whose strop re-verifies the token it returns (sc_reverify, recognised by T1 with ast) needs NO condition on the
    handlers: for every configuration with the validity conditions chk_base the full statement holds *)
 Theorem strop_sound_any_config : forall (cfg : strop_cfg), sc_reverify cfg = true -> chk_base py_uni cfg = true ->
